@@ -26,13 +26,14 @@ Section Sim2.
     (forall reg vreg next rs, exec pool (mk reg vreg) next rs =
                               with_reg rs vreg (fun x => put_res rs reg (f x) next)) ->
     (forall reg vreg, size (mk reg vreg) = 3) ->
+    (forall reg vreg, is_hole (mk reg vreg) = false) ->
     (forall r, dropped (is_none r) e = false ->
                dropped false a = false /\ (r = RNone -> forall v, exists w, f v = inl w)) ->
     known_expr e = known_expr a -> (forall x, reads x e = reads x a) ->
     (forall x, assigns x e = assigns x a) ->
     P pool a -> P pool e.
   Proof.
-    intros e a mk f HC HE HX HS HD HK HRd HAs IHa r st out st' c H W Dr.
+    intros e a mk f HC HE HX HS HH HD HK HRd HAs IHa r st out st' c H W Dr.
     destruct (HD r Dr) as (Da & TOT).
     rewrite HC in H.
     apply bind_inv in H. destruct H as (res & st1 & c1 & c2 & HR & H & ->).
@@ -75,16 +76,16 @@ Section Sim2.
         * destruct SH as (-> & ->). split; [reflexivity|assumption].
         * left. destruct SH as (-> & SH1 & SH2). split; [reflexivity|]. lia.
         * destruct SH as (-> & ->). split; [reflexivity|assumption].
-    - intros n s rs D prog K IV RD DO B CA. destruct n; [exact Logic.I|]. rewrite HE.
+    - intros n s rs D prog brk K IV RD DO B CA. destruct n; [exact Logic.I|]. rewrite HE.
       rewrite HK in K.
-      norm_code CA. apply code_at_app in CA as [CA1 CA2].
+      norm_code CA. apply cares_app in CA as [CA1 CA2].
       assert (IV1 : inv st1 D s rs) by (eapply inv_ext; eauto).
       assert (RDa : forall x, D x = true -> reads x a = false).
       { intros x Dx. rewrite <- HRd. auto. }
       assert (B1 : tbase st1 + tused st2 <= N.of_nat (length rs)).
       { pose proof (ext_used _ _ E2'). lia. }
       rewrite <- I1 in CA1.
-      specialize (DA n s rs D prog K IV1 RDa (dest_ok_any _ _ _ _) B1 CA1).
+      specialize (DA n s rs D prog brk K IV1 RDa (dest_ok_any _ _ _ _) B1 CA1).
       destruct (eval n s a) as [va s1| | | |]; try contradiction; [|rewrite <- I1; exact DA|exact Logic.I].
       destruct DA as (rs1 & S1 & LN1 & IVa & RA & FRa & SFa).
       apply dirty_any in IVa. specialize (RA _ OL).
@@ -103,7 +104,7 @@ Section Sim2.
         assert (RL : reg < N.of_nat (length rs)).
         { eapply RB; eauto. pose proof (ext_used _ _ E1'). lia. }
         assert (CA2' : code_at prog (ip st2) [mk reg vreg]).
-        { rewrite IA, I1. norm_code CA2. exact CA2. }
+        { apply (cares_one _ brk); [apply HH|]. rewrite IA, I1. norm_code CA2. exact CA2. }
         pose proof (istep_at pool _ _ _ rs1 CA2') as ST. rewrite HX in ST.
         unfold with_reg in ST. rewrite RA in ST. rewrite HS in ST.
         destruct (f va) as [v|ce] eqn:FV; cbn [put_res] in ST.
@@ -229,9 +230,9 @@ Section Sim2.
         * destruct SH as (-> & ->). split; [reflexivity|assumption].
         * left. destruct SH as (-> & SH1 & SH2). split; [reflexivity|]. lia.
         * destruct SH as (-> & ->). split; [reflexivity|assumption].
-    - intros n s rs D prog K IV RD DO B CA. destruct n; [exact Logic.I|]. cbn [eval].
+    - intros n s rs D prog brk K IV RD DO B CA. destruct n; [exact Logic.I|]. cbn [eval].
       cbn [known_expr] in K.
-      norm_code CA. apply code_at_app in CA as [CA1 CA]. apply code_at_cons in CA as [CA2 CA3].
+      norm_code CA. apply cares_app in CA as [CA1 CA]. apply cares_cons in CA as [CA2 CA3]; [|try reflexivity].
       assert (IV1 : inv st1 D s rs) by (eapply inv_ext; eauto).
       assert (RDa : forall y, D y = true -> reads y a = false).
       { intros y Dy. apply RD in Dy. cbn in Dy. apply orb_false_elim in Dy. tauto. }
@@ -240,7 +241,7 @@ Section Sim2.
       assert (B1 : tbase st1 + tused st2 <= N.of_nat (length rs)).
       { pose proof (ext_used _ _ E2'). lia. }
       rewrite <- I1 in CA1.
-      specialize (DA n s rs D prog K IV1 RDa (dest_ok_any _ _ _ _) B1 CA1).
+      specialize (DA n s rs D prog brk K IV1 RDa (dest_ok_any _ _ _ _) B1 CA1).
       destruct (eval n s a) as [va s1| | | |]; try contradiction; [|rewrite <- I1; exact DA|exact Logic.I].
       destruct DA as (rs1 & S1 & LN1 & IVa & RA & FRa & SFa).
       apply dirty_any in IVa. specialize (RA _ ORR).
@@ -277,7 +278,7 @@ Section Sim2.
       + assert (RL : reg < N.of_nat (length rs)).
         { eapply RB; eauto. pose proof (ext_used _ _ E1'). lia. }
         assert (CA3' : code_at prog (ip st3) [ICopy reg lx]).
-        { unfold st3. cbn [ip set_ip]. rewrite IA, I1. norm_code CA3. exact CA3. }
+        { apply (cares_one _ brk); [reflexivity|]. unfold st3. cbn [ip set_ip]. rewrite IA, I1. norm_code CA3. exact CA3. }
         pose proof (istep_at pool _ _ _ rs2 CA3') as ST3. cbn [exec] in ST3.
         unfold with_reg in ST3. rewrite (get_set_same _ _ _ _ SET) in ST3.
         assert (RL2 : reg < N.of_nat (length rs2)).
